@@ -61,6 +61,8 @@ fn build(v: &Value) -> ConstValue {
         Value::Bool(b) => ConstValue::Boolean(*b),
         Value::Number(n) => ConstValue::Number(n.clone()),
         Value::String(s) => if let Some(e) = s.strip_prefix("enum:") { ConstValue::Enum(async_graphql_value::Name::new(e)) } else if let Some(u) = s.strip_prefix("u64:") { ConstValue::Number(u.parse::<u64>().unwrap().into()) } else { ConstValue::String(s.clone()) },
+        // ["obj!", [k, v], ...]: an object with the keys in THIS order (serde_json maps are sorted, so order-sensitive rows use this form)
+        Value::Array(a) if a.first() == Some(&Value::String("obj!".into())) => ConstValue::Object(a[1..].iter().map(|p| (async_graphql_value::Name::new(p[0].as_str().unwrap()), build(&p[1]))).collect()),
         Value::Array(a) => ConstValue::List(a.iter().map(build).collect()),
         Value::Object(o) => ConstValue::Object(o.iter().map(|(k, v)| (async_graphql_value::Name::new(k), build(v))).collect()),
     }
@@ -84,12 +86,36 @@ pub fn value_roundtrip(args: &Value) -> Outcome {
         match serde_json::from_str::<ConstValue>(&text) { Ok(b) if b == v => {}, other => bad.push(format!("JSON text {:?} reads back as {:?}", text, other.map_err(|e| e.to_string()))) }
         match v.clone().into_json().map(ConstValue::from_json) { Ok(Ok(b)) if b == v => {}, other => bad.push(format!("into_json/from_json gives {:?}", other.map(|x| x.map_err(|e| e.to_string())).map_err(|e| e.to_string()))) }
     }
+    // 3. object keys keep their order in both renderings (IndexMap equality ignores order, so look at the text)
+    fn keys_in_order(v: &ConstValue, out: &mut Vec<String>) { match v { ConstValue::Object(o) => { for (k, x) in o { out.push(k.to_string()); keys_in_order(x, out); } } ConstValue::List(l) => { for x in l { keys_in_order(x, out); } } _ => {} } }
+    let mut ks = Vec::new(); keys_in_order(&v, &mut ks);
+    if !ks.is_empty() {
+        for (what, text) in [("GraphQL text", printed.clone()), ("JSON text", serde_json::to_string(&v).unwrap())] {
+            let mut from = 0usize; for k in &ks { match text[from..].find(k.as_str()) { Some(p) => from += p + k.len(), None => { bad.push(format!("{} {:?} does not list the keys in insertion order {:?}", what, text, ks)); break; } } }
+        }
+    }
+    // 4. the two value types convert into each other without loss; Variables keep their entries
+    let as_value: async_graphql_value::Value = v.clone().into_value();
+    if as_value.clone().into_const() != Some(v.clone()) { bad.push(format!("into_value / into_const gives {:?}", as_value.into_const())); }
+    if let ConstValue::Object(o) = &v {
+        let vars = async_graphql_value::Variables::from_value(v.clone());
+        let back = ConstValue::Object(vars.iter().map(|(k, x)| (k.clone(), x.clone())).collect());
+        if back != v || vars.len() != o.len() { bad.push(format!("Variables::from_value loses entries: {:?}", back)); }
+    }
+    // 5. exact text of simple values
+    if let Some(exp) = args["text"].as_str() { if printed != exp { bad.push(format!("printed {:?}, the GraphQL literal is {:?}", printed, exp)); } }
     Outcome { holds: bad.is_empty(), observed: if bad.is_empty() { format!("{} round-trips", printed) } else { bad.join("; ") }, expected: "print->parse and JSON round trips preserve the value".into() }
 }
-pub fn value_inputs(seed: u64) -> impl Iterator<Item = Value> {
+pub fn value_inputs(seed: u64, open: &[String]) -> impl Iterator<Item = Value> {
     let leaves = vec![json!(null), json!(true), json!(false), json!(0), json!(-1), json!(i64::MAX), json!(i64::MIN), json!("u64:9223372036854775808"), json!("u64:18446744073709551615"), json!(1.5), json!(-0.25), json!(1e300), json!(1e-7),
                       json!(""), json!("a\"b\\c"), json!("line\nfeed\rcr\ttab"), json!("\u{0}\u{1b}\u{7f}\u{9f}"), json!("\u{e9}\u{1F600}"), json!("enum:RED"), json!("enum:a_b1")];
     let mut out: Vec<Value> = leaves.iter().map(|l| json!({"v": l})).collect();
+    for (v, t) in [(json!(null), "null"), (json!(true), "true"), (json!(false), "false"), (json!(0), "0"), (json!(-12), "-12"), (json!(1.5), "1.5"), (json!("enum:RED"), "RED"), (json!("a"), "\"a\""), (json!([]), "[]"), (json!({}), "{}"),
+                   (json!([1, 2]), "[1, 2]"), (json!([[1], []]), "[[1], []]"), (json!({"a": 1}), "{a: 1}"), (json!(["obj!", ["b", 1], ["a", [true, null]]]), "{b: 1, a: [true, null]}"), (json!(["obj!", ["z", {"y": {"x": "enum:E"}}], ["a", {}]]), "{z: {y: {x: E}}, a: {}}")] {
+        out.push(json!({"v": v, "text": t}));
+    }
+    for v in [json!(1e21), json!(-0.0), json!(1e-320), json!(123456789.125), json!([[], [[]]]), json!({"k": [], "j": {}}), json!(["obj!", ["b", 2], ["a", 1], ["c", ["obj!", ["z", 1], ["y", 2]]]]), json!(["enum:tru", "enum:nul", "enum:_", "enum:fals3"])] { out.push(json!({"v": v})); }
+    if !open.iter().any(|x| x == "C15-enum-names-with-keyword-prefix") { out.push(json!({"v": ["enum:true1", "enum:nullx", "enum:falsey"]})); }
     let mut r = Rng(seed);
     for _ in 0..60 {
         let pick = |r: &mut Rng| leaves[r.below(leaves.len() as u64) as usize].clone();
